@@ -615,21 +615,24 @@ def xorArgBad : BExp → Bool
 
 mutual
 /-- expressions of the widened classes: symbols of `scope`, constants, `Not` / `And` / `Or` / `Xor`; no constant
-(or negated constant) directly under `Xor`; with `wideOr = false` additionally every `Or` has at most two
-arguments or only compound arguments (De Morgan's `X… MCX X…` on a symbol's qubit is not undone by the
-inline `uncompute`, which replays the `MCX` but not the `X` gates – finding `C02-uncompute-stale`) -/
-def wfExp (scope : List String) (wideOr : Bool) : BExp → Bool
+(or negated constant) directly under `Xor`.  With `lax = false` (the multi-definition classes, where freed
+ancillas are re-used) additionally: every `Or` has one or two arguments, or only compound arguments (De
+Morgan's `X… MCX X…` on a symbol's qubit is not undone by the inline `uncompute`, which replays the `MCX` but
+not the `X` gates – finding `C02-uncompute-stale`); no `Or` / `Xor` without arguments (its ancilla is never the
+target of a gate, so `uncompute` frees it but leaves it marked) -/
+def wfExp (scope : List String) (lax : Bool) : BExp → Bool
   | .sym n => scope.contains n
   | .tt => true
   | .ff => true
-  | .not a => wfExp scope wideOr a
-  | .and l => wfExpList scope wideOr l
-  | .or l => wfExpList scope wideOr l && (wideOr || decide (l.length ≤ 2) || l.all (fun a => !isLeaf a))
-  | .xor l => wfExpList scope wideOr l && l.all (fun a => !xorArgBad a)
+  | .not a => wfExp scope lax a
+  | .and l => wfExpList scope lax l
+  | .or l => wfExpList scope lax l &&
+      (lax || (!l.isEmpty && (decide (l.length ≤ 2) || l.all (fun a => !isLeaf a))))
+  | .xor l => wfExpList scope lax l && l.all (fun a => !xorArgBad a) && (lax || !l.isEmpty)
   | _ => false
-def wfExpList (scope : List String) (wideOr : Bool) : List BExp → Bool
+def wfExpList (scope : List String) (lax : Bool) : List BExp → Bool
   | [] => true
-  | a :: as => wfExp scope wideOr a && wfExpList scope wideOr as
+  | a :: as => wfExp scope lax a && wfExpList scope lax as
 end
 
 /-- class (a) – `QV.C02.C02_fragment_consts`: `inFragment` plus the constants `True` / `False` anywhere in the
